@@ -7,13 +7,14 @@ jobs=${1:-4}
 OUT=/verif/seeded/RESULTS.tsv
 python3 - <<'PY' > /tmp/seedmatrix.list
 import json, glob, os
-for mf in sorted(glob.glob('/verif/seeded/*/meta.json') + glob.glob('/verif/seeded/*/r2/meta.json')):
+for mf in sorted(glob.glob('/verif/seeded/*/meta.json') + glob.glob('/verif/seeded/*/r2/meta.json') + glob.glob('/verif/seeded/*/r3/meta.json')):
     m = json.load(open(mf)); d = os.path.dirname(mf)
     for c in m['changes']:
         if c.get('kept', True) is False: continue
         for chk in c['caught_by']:
             print(os.path.join(d, c['patch']), chk)
 PY
+if [ -n "$MATRIX_FILTER" ]; then grep -E "$MATRIX_FILTER" /tmp/seedmatrix.list > /tmp/seedmatrix.list.f; mv /tmp/seedmatrix.list.f /tmp/seedmatrix.list; fi
 rm -rf /tmp/seedmatrix.out; mkdir -p /tmp/seedmatrix.out
 one() {
   slot=$1; patch=$2; chk=$3
@@ -40,6 +41,21 @@ if [ "$jobs" -gt 1 ]; then
 else
   while read patch chk; do one 0 $patch $chk; done < /tmp/seedmatrix.list
 fi
-echo -e "change\tcheck\ttier\tresult" > $OUT
-cat /tmp/seedmatrix.out/* | sort >> $OUT
+if [ -n "$MATRIX_FILTER" ] && [ -f $OUT ]; then
+  # partial run: replace only the re-run rows
+  python3 - <<'PY2'
+import glob
+out='/verif/seeded/RESULTS.tsv'
+rows={}
+for l in open(out).read().splitlines()[1:]:
+    f=l.split('\t'); rows[(f[0],f[1])]=l
+for fn in glob.glob('/tmp/seedmatrix.out/*'):
+    for l in open(fn).read().splitlines():
+        f=l.split('\t'); rows[(f[0],f[1])]=l
+open(out,'w').write("change\tcheck\ttier\tresult\n"+"\n".join(rows[k] for k in sorted(rows))+"\n")
+PY2
+else
+  echo -e "change\tcheck\ttier\tresult" > $OUT
+  cat /tmp/seedmatrix.out/* | sort >> $OUT
+fi
 git -C /repo status --short
